@@ -54,7 +54,10 @@ def quiet_logging():
     lg = logging.getLogger("batchie")
     for h in list(lg.handlers):
         lg.removeHandler(h)
-    lg.setLevel(logging.CRITICAL)
+    lg.addHandler(logging.NullHandler())
+    # verbosity is a configuration like any other: every second shard runs batchie with DEBUG logging enabled
+    # (records are discarded, but code guarded by logger.isEnabledFor(DEBUG) runs)
+    lg.setLevel(logging.DEBUG if os.environ.get("VF_LOG_DEBUG") == "1" else logging.CRITICAL)
 
 
 def load_orchestrator(name="orch"):
